@@ -7,7 +7,9 @@
      objects  per created object: <hex count> counted and alive, u unique alive, s static, x destroyed
      slots    i:o for every slot i holding a handle on object o
      events   a<o> u<o> d<o>  addref / unref / destroy calls seen by harness-implemented vtables
-   last token: L0 | L1 (an object neither freed nor reachable), F after a fault *)
+   last token: L0 | L1 (an object neither freed nor reachable), F after a fault
+     <id> n <op> <args> ...        linked nodes (reference<node>, every node owns a reference<node> next):
+                                   objects  <hex count>[><id of the object next refers to>] | x *)
 let hexdigit c = match c with
   | '0'..'9' -> Char.code c - 48 | 'a'..'f' -> Char.code c - 87 | 'A'..'F' -> Char.code c - 55
   | _ -> failwith "hex"
@@ -79,7 +81,24 @@ let rec parse_ops toks = match toks with
   | "advance" :: m :: r -> ORawAdvance (nat m) :: parse_ops r
   | "rget" :: m :: a :: r -> ORawGet (nat m, nat a) :: parse_ops r
   | "rread" :: m :: r -> ORawCall (nat m, false) :: parse_ops r
+  | "rconv" :: m :: r -> ORawCall (nat m, false) :: parse_ops r   (* conversion to the own interface by type id: no reference taken *)
   | t :: _ -> failwith ("bad op " ^ t)
+
+(* family n: linked nodes (coq/C15/ChainModel.v) *)
+let rec parse_nops toks = match toks with
+  | [] -> []
+  | "xnew" :: d :: r -> NNew (nat d) :: parse_nops r
+  | "xassign" :: s :: d :: r -> NAssign (nat s, nat d) :: parse_nops r
+  | "xcopy" :: s :: d :: r -> NCopy (nat s, nat d) :: parse_nops r
+  | "xmove" :: s :: d :: r -> NMove (nat s, nat d) :: parse_nops r
+  | "xdetach" :: s :: d :: r -> NDetach (nat s, nat d) :: parse_nops r
+  | "xset" :: s :: d :: r -> NSetInst (nat s, nat d) :: parse_nops r
+  | "xdrop" :: d :: r -> NDrop (nat d) :: parse_nops r
+  | "addref" :: s :: d :: r -> NAddref (nat s, nat d) :: parse_nops r
+  | "unref" :: s :: r -> NUnref (nat s) :: parse_nops r
+  | "xsetnext" :: s :: d :: r -> NSetNext (nat s, nat d) :: parse_nops r
+  | "xnext" :: s :: d :: r -> NNext (nat s, nat d) :: parse_nops r
+  | t :: _ -> failwith ("bad node op " ^ t)
 
 let rec parse_cops toks = match toks with
   | [] -> []
@@ -98,6 +117,15 @@ let dash s = if s = "" then "-" else s
 let show_slots h =
   dash (String.concat "," (List.concat (List.mapi (fun i v -> match v with
     | Some o -> [Printf.sprintf "%d:%d" i (int_of_nat o)] | None -> []) h)))
+let show_ndisp d = match d with
+  | NDead -> "x"
+  | NLive (c, None) -> hex_of_n c
+  | NLive (c, Some b) -> hex_of_n c ^ ">" ^ string_of_int (int_of_nat b)
+let show_nobs with_ev o = match o with
+  | NObsFault -> "F"
+  | NObs (t, d, h, e) ->
+    show_out t ^ "|" ^ dash (String.concat "," (List.map show_ndisp d)) ^ "|" ^ show_slots h
+    ^ (if with_ev then "|" ^ dash (String.concat "" (List.map show_ev e)) else "")
 let show_obs with_ev o = match o with
   | ObsFault -> "F"
   | Obs (t, d, h, e) ->
@@ -116,6 +144,14 @@ let () =
       let (so, sf) = srun sinit ops in
       Printf.printf "S %s %s\n" id
         (String.concat " " (List.map (show_obs false) so @ [if sleaked sf then "L1" else "L0"]))
+    | id :: "n" :: ops ->
+      let ops = parse_nops ops in
+      let (mo, mf) = nrun ninit ops in
+      let ml = match mf with Some s -> [if nleaked s then "L1" else "L0"] | None -> [] in
+      Printf.printf "M %s %s\n" id (String.concat " " (List.map (show_nobs true) mo @ ml));
+      let (so, sf) = csrun csinit ops in
+      Printf.printf "S %s %s\n" id
+        (String.concat " " (List.map (show_nobs false) so @ [if csleaked sf then "L1" else "L0"]))
     | id :: ("r" | "y") :: ops ->
       let ops = parse_cops ops in
       let show (ret, v) = hex_of_n ret ^ "|" ^ hex_of_n v in
